@@ -299,7 +299,8 @@ def directed_histories():
     # (by revision, and store-chosen) and to a kept revision, failing inside LinkSnap, on link-snap entry and later
     for tag, fl, coh, chan in (("dev", {"dev": True}, "c1", "latest/edge"), ("jail", {"jail": True}, "c2", "latest/edge")):
         keep = dict(fl, ignv=True)
-        ops = [op("install", rev=1, chan=chan, **fl), op("refresh", rev=2, store=True, cohort=coh, **keep),
+        ops = [op("setretain", val=5),   # nothing is garbage-collected: revision 1 stays a kept revision throughout
+               op("install", rev=1, chan=chan, **fl), op("refresh", rev=2, store=True, cohort=coh, **keep),
                op("setconfig", val=2), op("inhibit")]
         ops.append(op("refresh", rev=3, fk=11, fop="link-snap", **keep))
         for kk in (11, 12, 15, 18, 19):
